@@ -74,31 +74,14 @@ def r0(ctx, rep):
                         f'rule class lacks node filters {sorted(need - have)}: it would be applied to nodes of another shape')
         # ignore_ticked must be on for ticking rules (a ticked node is never expanded twice)
     rep.floor('C04.R0', 'rule classes with filters', len(seen), 210)
-    # the four decorated _get_targets and the fat-quantifier loop only delegate
-    for cls, tgt in ctx.ex.DELEGATES.items():
-        fn = m.func('pytableaux.proof.rules', f'{cls[0]}.{cls[1]}')
-        params = [a.arg for a in fn.args.posonlyargs + fn.args.args]
-        where = m.loc('pytableaux.proof.rules', fn)
-        rep.consult(f'{where} {cls[0]}.{cls[1]}')
-        calls_ = [c for c in astq.calls(fn) if astq.call_name(c) == f'self.{tgt}']
-        ok = bool(calls_)
-        for c in calls_:
-            args = [astq.u(a) for a in c.args]
-            if tgt == '_get_node_targets':
-                ok = ok and args == params[1:3]
-            else:
-                ok = ok and len(args) == 3 and args[0] == params[1] and args[2] == params[2]
-        # any other production must be a quit-flag target
-        prods = [n for n in ast.walk(fn) if isinstance(n, (ast.Yield, ast.YieldFrom)) and n.value is not None]
-        for p in prods:
-            txt = astq.u(p.value)
-            if f'self.{tgt}' in txt or 'fnode' in txt or txt == 'res' or 'nodes' in txt:
-                continue
-            ok = False
-        rep.instance(R, ok=ok, nontrivial=('delegation', cls))
+    # the plumbing wrappers the extractor skips only delegate (folded with a stub delegate; the fat-quantifier loop is C04.R7)
+    from .. import helpersfold
+    res, cons = helpersfold.fold_delegation(m)
+    rep.consult(*cons)
+    for ok, case, detail in res:
+        rep.instance(R, ok=ok, nontrivial=('delegation', case))
         if not ok:
-            rep.finding(R, f'C04.R0/delegation/{cls[0]}.{cls[1]}', where, f'{cls[0]}.{cls[1]}',
-                        f'no longer a pure delegation to self.{tgt}(node, branch) (plus quit-flag targets)')
+            rep.finding(R, f'C04.R0/delegation/{case}', cons[0].split(' ')[0] if cons else 'pytableaux/proof/rules.py', case, detail)
 
 
 # ---------------------------------------------------------------------------
